@@ -117,6 +117,18 @@ def _nearest(ctx, p, fn, b, bi, t, info):
         return ['node steered from is not a container element: %s' % fmt_terms(frm)[:80]]
     ix = next(iter(f0[1]))
     cont, I = ix[1], ix[2]
+    am = P.argmin_info(ctx, I)
+    if am is not None:
+        # the nearest node is selected by min_by over the whole container (first of the minimal elements: std semantics)
+        if am['comp'] != am['idx_comp']:
+            return ['the node steered from is indexed by the distance component of the arg-min, not by its index']
+        if am['cont'] != cont:
+            probs.append('the arg-min runs over %s, the node steered from is read from %s' % (fmt_terms(am['cont'])[:40], fmt_terms(cont)[:40]))
+        if am['sf'] != f0[2]:
+            probs.append('the arg-min compares distances to `%s` of the nodes, the node steered from contributes `%s`' % (am['sf'], f0[2]))
+        if strip_clone(am['target']) != strip_clone(tgt):
+            probs.append('the arg-min measures the distance to %s, not to the steering target %s' % (fmt_terms(am['target'])[:50], fmt_terms(tgt)[:50]))
+        return probs
     # locate the Index::index call (or projection) that read container[I] and split the definitions of I
     defs = None
     for bj, t2 in b.calls():
